@@ -19,6 +19,9 @@ R9  %array: every bulk copy into the yytext array is dominated by a capacity com
     (all additive terms, e.g. yy_more_offset) and whose failing edge is fatal.
 R10 REJECT: every cell the yyreject() expansion restores from (yy_full_match, yy_full_lp, yy_full_state) is saved for the current
     token on every path from the token start / from the arm that starts the trailing-context search to the restore.
+R11 REJECT: at every (re)allocation of yy_state_buf the provided element count, the value recorded in yy_state_buf_max and the guard's
+    threshold are the same linear expression.
+R12 serialized tables: min_int_size() picks a cell width only for maxima that fit the (signed) type yytbl_data_load reads it into.
 R5  every field/static whose zero value triggers lazy initialisation is reset by yy_init_globals, which yylex_destroy calls
     after its frees; arrays released in yylex_destroy have their index/capacity companions reset too.
 """
@@ -1133,6 +1136,164 @@ def r10(rep, v, prog, mod, F):
                              replay_input='%option noyywrap\n%%\n[a-z]+/[0-9]+x { REJECT; }\n[a-z]+ { }\n[0-9]+ { }\n.|\\n ;\n%%\n/* input: bar77x */')
     return n
 
+# ---------------------------------------------------------------- R11
+
+def r11(rep, v, prog, mod, F):
+    """REJECT state stack: at every site that allocates or grows yy_state_buf, the number of elements the allocation provides, the
+    number recorded in yy_state_buf_max and the threshold of the guard that decides whether to grow are one quantity (the same
+    linear expression over yy_buf_size and the EXTRA constant): a guard that is satisfied by less than what is demanded leaves a
+    buffer current whose last states do not fit."""
+    n = 0
+    for call in F.alloc_calls:
+        fn = call.fn
+        dst = None
+        for x in fn.ins:
+            if x.op == 'store' and x.ty is not None and x.ty.k == 'ptr' and any(sc[0] == 'lit' and sc[2] is call for sc in F.sources(fn, x.ops[0])):
+                if any(_named(nn, 'yystatebuf') for nn in F.addr_nodes(fn, x.ops[1])): dst = x
+        if dst is None: continue
+        esz = mod.sizeof(dst.ty.a) if dst.ty.a is not None else 0
+        if esz <= 0: rep.broken('C13.R11: element size of yy_state_buf unknown in %s [variant %s]' % (fn.name, v.name))
+        size = call.ops[1] if F.names.get(call.callee) == 'yyrealloc' else call.ops[0]
+        lin = linear(F, fn, size)
+        if lin is None: rep.broken('C13.R11: cannot normalise the size passed to %s in %s [variant %s]' % (call.callee, fn.name, v.name))
+        key0 = 'C13.R11:%s:%s:yy_state_buf' % (skel(v), fkey(fn))
+        cfg = prog.cfg(fn)
+        after = cfg.reach(call)
+        recs = [x for x in fn.ins if x.op == 'store' and x in after and any(_named(nn, 'yystatebufmax') for nn in F.addr_nodes(fn, x.ops[1]))]
+        n += 1
+        if not recs:
+            rep.fail('C13.R11', key0 + ':capacity-not-recorded', where(call), '%s (re)allocates yy_state_buf but does not record the new capacity in yy_state_buf_max [variant %s]' % (fn.name, v.name), variant=v.describe()); continue
+        prov = None; bad = None
+        for st in recs:
+            l2 = linear(F, fn, st.ops[0])
+            if l2 is None: rep.broken('C13.R11: cannot normalise the value stored to yy_state_buf_max in %s [variant %s]' % (fn.name, v.name))
+            want = (l2[0] * esz, {k: c * esz for k, c in l2[1].items()})
+            if want != lin: bad = (st, l2)
+            else: prov = l2
+        if bad:
+            rep.fail('C13.R11', key0 + ':bytes-differ-from-capacity', where(call),
+                     '%s passes %s bytes to %s for yy_state_buf but records a capacity of %s states of %d bytes (= %s bytes) in yy_state_buf_max: the block and the recorded capacity disagree [variant %s]' % (
+                         fn.name, lin_str(*lin), call.callee, lin_str(*bad[1]), esz, lin_str(bad[1][0] * esz, {k: c * esz for k, c in bad[1][1].items()}), v.name), variant=v.describe(),
+                     replay_input='REJECT scanner; a token as long as the input buffer: the state stack is written up to the recorded capacity')
+            continue
+        rep.ok('C13.R11', '%s %s:%s %s gets (%s) * %d bytes and yy_state_buf_max records %s' % (v.name, fn.name, call.line, call.callee, lin_str(*prov), esz, lin_str(*prov)))
+        # the guard: branches that decide whether the call runs and read yy_state_buf_max
+        F.o(fn); res = F.res[fn.name]
+        for br, t in prog.cfg(fn, cut=False).control_deps_closure(call.blk):
+            if br.op != 'br' or not br.ops: continue
+            if not any(any(_named(nn, 'yystatebufmax') for nn in F.addr_nodes(fn, d.ops[0])) for d, l in flow.cond_loads(fn, br, res)): continue
+            c = fn.def_of(br.ops[0])
+            neg = False
+            while c is not None and c.op == 'xor' and c.ops[1] == ('int', 1): neg = not neg; c = fn.def_of(c.ops[0])
+            n += 1
+            if c is None or c.op != 'icmp' or c.pred[1:] not in ('lt', 'le', 'gt', 'ge'):
+                rep.broken('C13.R11: the capacity guard of %s in %s is not an ordering comparison [variant %s]' % (call.callee, fn.name, v.name))
+            a = linear(F, fn, c.ops[0]); b = linear(F, fn, c.ops[1])
+            if a is None or b is None: rep.broken('C13.R11: cannot normalise the capacity guard in %s [variant %s]' % (fn.name, v.name))
+            ismax = lambda l: len(l[1]) == 1 and l[0] == 0 and all(_named(k, 'yystatebufmax') and cc == 1 for k, cc in l[1].items())
+            pred = c.pred[1:]
+            if ismax(a): other = b
+            elif ismax(b): other = a; pred = {'lt': 'gt', 'gt': 'lt', 'le': 'ge', 'ge': 'le'}[pred]
+            else: rep.broken('C13.R11: the capacity guard in %s does not compare yy_state_buf_max itself [variant %s]' % (fn.name, v.name))
+            taken_true = (fn.bmap[br.targets[0]] is t) != neg
+            # grow when  max < T :  normalise the edge on which the call runs
+            if not taken_true: pred = {'lt': 'ge', 'ge': 'lt', 'le': 'gt', 'gt': 'le'}[pred]
+            if pred == 'lt': T = other
+            elif pred == 'le': T = (other[0] + 1, other[1])
+            else:
+                rep.fail('C13.R11', key0 + ':guard-inverted', where(br), '%s grows yy_state_buf when yy_state_buf_max is large, not when it is small [variant %s]' % (fn.name, v.name), variant=v.describe()); continue
+            diff = _lin_add(T, prov, -1)
+            if diff[1] or diff[0] < 0:
+                rep.fail('C13.R11', key0 + ':guard-below-allocation', where(br),
+                         '%s keeps the REJECT state stack when yy_state_buf_max >= %s, but the buffer that is now current needs %s states (what the growth arm allocates and records): '
+                         'the last %s state(s) of a full buffer are written past the block [variant %s]' % (fn.name, lin_str(*T), lin_str(*prov), -diff[0] if not diff[1] else 'few', v.name),
+                         variant=v.describe(), replay_input='REJECT scanner: yy_switch_to_buffer() to a buffer 1-3 bytes larger than the previous one, then a token that fills it')
+            else:
+                rep.ok('C13.R11', '%s %s: grows when yy_state_buf_max < %s = allocated count' % (v.name, fn.name, lin_str(*T)))
+    return n
+
+# ---------------------------------------------------------------- R12
+
+def reader_signedness(vs):
+    """{width in bytes: 'sext'|'zext'} - how yytbl_data_load of the tables-file variants widens the 8/16-bit cells it reads"""
+    out = {}
+    for v in vs:
+        mod = variants.module(v)
+        f = next((x for x in mod.functions.values() if fkey(x) == 'yytbl_data_load'), None)
+        if f is None: continue
+        res = ir.Resolver(f)
+        for c in f.ins:
+            if c.op != 'call' or fkey(c.callee or '') not in ('yytbl_read8', 'yytbl_read16') or not c.ops: continue
+            tmp = res.loc(c.ops[0])
+            if tmp[0] != 'local': continue
+            w = 1 if fkey(c.callee).endswith('8') else 2
+            for x in f.ins:
+                if x.op in ('sext', 'zext'):
+                    d = f.def_of(x.ops[0])
+                    if d is not None and d.op == 'load' and res.loc(d.ops[0]) == tmp:
+                        out.setdefault(w, set()).add(x.op)
+    return out
+
+def _const_of(fn, v):
+    if v[0] == 'int': return v[1]
+    d = fn.def_of(v)
+    if d is not None and d.op in ('sext', 'zext', 'trunc'): return _const_of(fn, d.ops[0])
+    if d is not None and d.op in ('add', 'sub', 'mul'):
+        x = _const_of(fn, d.ops[0]); y = _const_of(fn, d.ops[1])
+        if x is None or y is None: return None
+        return x + y if d.op == 'add' else x - y if d.op == 'sub' else x * y
+    if d is not None and d.op == 'load':
+        a = fn.def_of(d.ops[0])
+        if a is not None and a.op == 'alloca':
+            st = [x for x in fn.ins if x.op == 'store' and x.ops[1] == d.ops[0]]
+            if len(st) == 1: return _const_of(fn, st[0].ops[0])
+    return None
+
+def r12(ctx, rep, sign):
+    """writer/reader agreement on cell widths of the serialized tables: min_int_size() may choose width w only when the largest
+    absolute value fits the type yytbl_data_load reads w-byte cells into (signed when it sign-extends them)"""
+    prog = ctx.flex
+    fn = prog.fn('min_int_size')
+    if fn is None: rep.broken('C13.R12: min_int_size() not found in flex')
+    cfg = prog.cfg(fn, cut=False)
+    rets = [x for x in fn.ins if x.op == 'store' and x.ops[1] == ('reg', 'retval') and x.ops[0][0] == 'int']
+    if len(rets) < 3: rep.broken('C13.R12: min_int_size() has %d constant returns, expected the three widths' % len(rets))
+    n = 0
+    for st in rets:
+        w = st.ops[0][1]
+        n += 1
+        upper = None; var = None
+        for br, t in cfg.control_deps_closure(st.blk):
+            if br.op != 'br' or not br.ops: continue
+            c = fn.def_of(br.ops[0])
+            if c is None or c.op != 'icmp': rep.broken('C13.R12: a branch of min_int_size() is not a comparison')
+            if c.pred[1:] not in ('lt', 'le', 'gt', 'ge'): continue
+            ka = _const_of(fn, c.ops[0]); kb = _const_of(fn, c.ops[1])
+            pred = c.pred[1:]
+            if kb is not None and ka is None: K = kb; x = c.ops[0]
+            elif ka is not None and kb is None: K = ka; x = c.ops[1]; pred = {'lt': 'gt', 'gt': 'lt', 'le': 'ge', 'ge': 'le'}[pred]
+            else: continue            # the maximum-tracking comparison of the scan loop (two variables)
+            if fn.bmap[br.targets[0]] is not t: pred = {'lt': 'ge', 'ge': 'lt', 'le': 'gt', 'gt': 'le'}[pred]
+            if pred == 'le': u = K
+            elif pred == 'lt': u = K - 1
+            else: continue            # a lower bound
+            upper = u if upper is None else min(upper, u)
+        if w >= 4:
+            rep.ok('C13.R12', 'min_int_size: width %d takes every 32-bit value' % w); continue
+        how = sign.get(w)
+        if not how: rep.broken('C13.R12: no tables-file variant shows how yytbl_data_load widens %d-byte cells' % w)
+        limit = (1 << (8 * w - 1)) - 1 if 'sext' in how else (1 << (8 * w)) - 1
+        key = 'C13.R12:tables.c:min_int_size:width%d-range' % w
+        if upper is None:
+            rep.fail('C13.R12', key, where(st), 'min_int_size() can choose %d-byte cells without an upper bound on the largest value' % w)
+        elif upper > limit:
+            rep.fail('C13.R12', key, where(st), 'min_int_size() chooses %d-byte cells for maxima up to %d, but yytbl_data_load reads such cells into a %s %d-bit temporary (%s): values %d..%d '
+                     'come back negative' % (w, upper, 'signed' if 'sext' in how else 'unsigned', 8 * w, '/'.join(sorted(how)), limit + 1, upper),
+                     replay_input='--tables-file with a table whose largest entry lies in %d..%d (e.g. a scanner with more than %d DFA states / base offsets)' % (limit + 1, upper, limit))
+        else:
+            rep.ok('C13.R12', 'min_int_size: width %d chosen only for maxima <= %d <= %d (reader %s)' % (w, upper, limit, '/'.join(sorted(how))))
+    return n
+
 def controls(ctx):
     rep = ctx.rep
     mod = compile_control(ctx, 'c13_control.c')
@@ -1190,6 +1351,7 @@ def run(ctx):
         if 'M4_MODE_USES_REJECT' in variants.mode_symbols(v):
             k = r10(rep, v, prog, mod, F)
             tot['R10'] = tot.get('R10', 0) + k
+            if has_reject(mod, F): tot['R11'] = tot.get('R11', 0) + r11(rep, v, prog, mod, F)
             if k: nr10.add(('vartrail' if 'M4_MODE_VARIABLE_TRAILING_CONTEXT_RULES' in variants.mode_symbols(v) else 'plain', v.backend))
         nfn += len(mod.functions)
         tot['R1'] += r1(rep, v, prog, mod, F)
@@ -1215,6 +1377,9 @@ def run(ctx):
     rep.floor('C13.R8', 280, 'measured 316 (quick): 10-16 members x 2 constructors in each C++ variant')
     for need in (('vartrail', 'nr'), ('vartrail', 'r'), ('vartrail', 'cxx'), ('vartrail', 'c99'), ('plain', 'nr')):
         if need not in nr10: rep.broken('C13.R10: no %s variant with a yyreject() expansion (%s) was analysed' % (need[1], need[0]))
+    tot['R12'] = r12(ctx, rep, reader_signedness(vs))
+    rep.floor('C13.R12', 3, 'the three widths min_int_size() can return')
+    rep.floor('C13.R11', 85, 'bytes = recorded capacity * element size at each (re)allocation of yy_state_buf (yy_load_buffer_state, first call of yylex, C++ constructor) + the guard threshold at the growth site, in every REJECT variant')
     rep.floor('C13.R10', 100, 'start-of-token and start-of-search probes for 1-3 restored cells in each REJECT variant that contains a yyreject() expansion')
     rep.floor('C13.R9', 6, 'one copy in YY_DO_BEFORE_ACTION / yy_do_before_action of each of the >=6 %array variants')
     rep.floor('C13.R7', 6, 'th.th_version in yytbl_fload of every tables-file variant')
